@@ -268,6 +268,7 @@ func runBalance(cx *CheckCtx, prop string) {
 	// the legs are decided once, on Token.transfer itself as the root: they then hold for every caller
 	if prop == "C01" {
 		balanceLegs(cx)
+		checkSupplyWritten(cx)
 	}
 	for _, name := range balanceMutators {
 		m := cx.method("balance", name)
@@ -423,6 +424,30 @@ func runBalance(cx *CheckCtx, prop string) {
 				}
 			}
 		}
+	}
+}
+
+// checkSupplyWritten: Mint and Burn cannot return normally without having
+// written the supply counter (the step itself is checked at the site).
+func checkSupplyWritten(cx *CheckCtx) {
+	for _, name := range []string{"Mint", "Burn"} {
+		m := cx.method("balance", name)
+		if m == nil {
+			continue
+		}
+		a := cx.run(m)
+		var put *Site
+		for _, s := range a.RealEffects() {
+			if s.Effect == "put" && keyFamily(s.Args[1]) == "MainnetGAS" {
+				put = s
+			}
+		}
+		ok := put != nil && executedAtEveryExit(a, put)
+		where := cx.W.pos(m.Fn.Pos())
+		if put != nil {
+			where = put.Where(cx.W)
+		}
+		cx.decide(ok, "supply-step", "balance."+name+"/written", "every normal return has written the supply counter", name+" can return normally without writing the supply counter: Σ balances changes, the supply does not", where)
 	}
 }
 
@@ -914,7 +939,7 @@ func checkLoaders(cx *CheckCtx, pkgRel string) {
 	}
 	n := 0
 	for _, f := range allFuncs(w.Prog.Package(p.Types)) {
-		if f.Parent() != nil || f.Blocks == nil || f.Signature.Results().Len() != 1 || directCallees(f)["storage.Get"] != 1 || len(f.Blocks) > 4 {
+		if f.Parent() != nil || f.Blocks == nil || f.Signature.Results().Len() != 1 || directCallees(f)["storage.Get"] != 1 || len(f.Blocks) > 6 {
 			continue
 		}
 		if dc := directCallees(f); dc["storage.Put"]+dc["storage.Delete"] > 0 {
@@ -927,6 +952,20 @@ func checkLoaders(cx *CheckCtx, pkgRel string) {
 		}
 		if rd == nil || len(a.Exits()) < 2 {
 			continue
+		}
+		hasLoop, returnsRead := false, false
+		for _, b := range f.Blocks {
+			if isLoopHeader(b) {
+				hasLoop = true
+			}
+		}
+		for _, ex := range a.Exits() {
+			if len(ex.Results) == 1 && ex.Results[0].contains(func(x *Term) bool { return x == rd }) {
+				returnsRead = true
+			}
+		}
+		if hasLoop || !returnsRead {
+			continue // not a plain loader
 		}
 		n++
 		ok, detail := true, ""
